@@ -70,6 +70,12 @@ func (g *Gen) call(v ssa.Value, c *ssa.CallCommon, st *State) *State {
 	}
 	var args []ssa.Value
 	if c.IsInvoke() {
+		// calling a method on a nil interface panics
+		if in, ok := v.(ssa.Instruction); ok && v != nil {
+			g.safety("nilcall", in, fmt.Sprintf("(not (= %s nil.iface))", g.val(c.Value)))
+		} else if g.curInstr != nil {
+			g.safety("nilcall", g.curInstr, fmt.Sprintf("(not (= %s nil.iface))", g.val(c.Value)))
+		}
 		args = append([]ssa.Value{c.Value}, c.Args...)
 		con := g.prog.IfaceContract(c.Method)
 		name := "invoke " + c.Value.Type().String() + "." + c.Method.Name()
@@ -196,7 +202,7 @@ func (g *Gen) canInline(fn *ssa.Function) bool {
 		}
 		for _, in := range b.Instrs {
 			switch in.(type) {
-			case *ssa.Defer, *ssa.Go, *ssa.Select:
+			case *ssa.Defer, *ssa.Go, *ssa.Select, *ssa.Send, *ssa.MakeChan:
 				return false
 			}
 		}
@@ -368,6 +374,7 @@ func (g *Gen) applyContractTV(v ssa.Value, con *spec.FuncContract, sig *types.Si
 			post = g.havocAll(st, "c")
 		} else {
 			post = g.havocSet(st, mods, "c")
+			post = g.havocWritten(post, g.lastWritten)
 		}
 	}
 	res := g.havocResults(short, sig, post)
@@ -397,7 +404,17 @@ func (g *Gen) applyContractTV(v ssa.Value, con *spec.FuncContract, sig *types.Si
 			g.assert(fmt.Sprintf("(=> %s (> %s %s))", g.reach[g.curBlock], t, g.top(st)))
 		}
 	}
+	verified := !con.Trusted && !con.Iface && !strings.Contains(con.Name, "@") && !strings.HasPrefix(con.Name, "field ")
 	for _, e := range con.Ensures {
+		if verified {
+			// a clause of a verified callee is assumed only if it is itself
+			// discharged (SkipClauses = clauses that are not)
+			cn := name + "#post." + e.Label
+			if SkipClauses[cn] {
+				continue
+			}
+			g.usedClauses[cn] = true
+		}
 		t := g.evalBool(env, e.Expr, e.Src)
 		g.assert(fmt.Sprintf("(=> %s %s)", g.reach[g.curBlock], t))
 	}
@@ -405,55 +422,94 @@ func (g *Gen) applyContractTV(v ssa.Value, con *spec.FuncContract, sig *types.Si
 	return post
 }
 
-// contractMods resolves a contract's modifies clause to component keys.
-// Without a clause, a trusted/external callee modifies nothing but the
-// allocation top; an in-repo callee with a body gets its computed mod-set.
+// contractMods: components to havoc at a call governed by contract con.
+// Verified in-repo callees without an explicit frame use their computed effect
+// summary; parameters they write through are resolved by the argument types.
 func (g *Gen) contractMods(con *spec.FuncContract, args []ssa.Value) (map[string]bool, bool) {
-	mods := map[string]bool{TopKey: true}
-	// closure arguments may be run by the callee: their effects are the callee's
-	for _, a := range args {
-		if cl, ok := g.clos[a]; ok {
-			m, all := g.prog.ModSet(g.u, cl.Fn.(*ssa.Function))
-			if all {
-				return mods, true
-			}
-			for k := range m {
-				mods[k] = true
-			}
+	var fn *ssa.Function
+	if !con.Iface && !strings.Contains(con.Name, "@") && !strings.HasPrefix(con.Name, "field ") {
+		fn = g.prog.LookupFunc(con)
+	}
+	ce := g.prog.contractEffects(g.u, con, fn, args)
+	m := copySet(ce.comps)
+	m[TopKey] = true
+	g.lastWritten = ce.written
+	return m, ce.all
+}
+
+// havocWritten havocs exactly the objects the written arguments point to.
+func (g *Gen) havocWritten(st *State, written []ssa.Value) *State {
+	for _, w := range written {
+		st = g.havocObject(st, w)
+	}
+	return st
+}
+
+// havocObject: the callee may have written the object v points to (the
+// struct/array/cell itself including inline aggregates, the backing row of a
+// slice, the contents of a map) — nothing else.
+func (g *Gen) havocObject(st *State, v ssa.Value) *State {
+	if pl := g.places[v]; pl != nil {
+		if _, copied := g.vals[v]; !copied {
+			nv := g.fresh("hv", g.u.SortOf(pl.Type))
+			g.assert(g.u.rangeFact(nv, pl.Type, g.top(st)))
+			return g.store(st, pl, nv)
 		}
 	}
-	if !con.HasMod {
-		if f := g.prog.LookupFunc(con); f != nil && len(f.Blocks) > 0 && !con.Trusted {
-			m, all := g.prog.ModSet(g.u, f)
-			for k := range m {
-				mods[k] = true
-			}
-			return mods, all
+	switch t := types.Unalias(v.Type()).Underlying().(type) {
+	case *types.Slice:
+		k := g.u.ElemComp(t.Elem())
+		row := g.fresh("hv.row", "(Array Int "+g.u.SortOf(t.Elem())+")")
+		if f := g.u.rangeFact("(select "+row+" i!h)", t.Elem(), g.top(st)); f != "" {
+			g.assert(fmt.Sprintf("(forall ((i!h Int)) (! %s :pattern ((select %s i!h))))", f, row))
 		}
-		return mods, false
+		s := g.val(v)
+		cur := g.read(st, k)
+		return g.update(st, k, fmt.Sprintf("(ite (= (s.base %s) 0) %s (store %s (s.base %s) %s))", s, cur, cur, s, row))
+	case *types.Pointer:
+		return g.havocAt(st, g.val(v), t.Elem())
+	case *types.Map:
+		md, mv := g.u.MapComps(t)
+		r := g.val(v)
+		d := g.fresh("hv.dom", "(Array "+g.u.SortOf(t.Key())+" Bool)")
+		vv := g.fresh("hv.val", "(Array "+g.u.SortOf(t.Key())+" "+g.u.SortOf(t.Elem())+")")
+		st = g.update(st, md, fmt.Sprintf("(store %s %s %s)", g.read(st, md), r, d))
+		return g.update(st, mv, fmt.Sprintf("(store %s %s %s)", g.read(st, mv), r, vv))
 	}
-	env := &Env{g: g, vars: map[string]TV{}, pkg: con.Pkg, src: con.Src}
-	for _, m := range con.Modifies {
-		switch {
-		case m == "*":
-			return mods, true
-		case m == "nothing":
-		case strings.HasPrefix(m, "@"):
-			e, err := spec.ParseExpr(m)
-			if err != nil {
-				g.fail("bad modifies %s: %v", m, err)
-			}
-			hr := e.(*spec.HeapRef)
-			mods[g.heapRefKey(env, hr)] = true
-		default:
-			if srt, ok := g.prog.Specs.Ghosts[m]; ok {
-				mods[g.u.GhostComp(m, srt)] = true
-			} else {
-				g.fail("%s: unknown modifies target %s", con.Src, m)
+	return st
+}
+
+func (g *Gen) havocAt(st *State, r Term, t types.Type) *State {
+	switch x := types.Unalias(t).Underlying().(type) {
+	case *types.Struct:
+		si := g.u.StructOf(t)
+		for i, f := range si.Fields {
+			switch ft := types.Unalias(f.Type).Underlying().(type) {
+			case *types.Struct:
+				st = g.havocAt(st, fldRef(r, i), f.Type)
+			case *types.Array:
+				_ = ft
+				st = g.havocAt(st, fldRef(r, i), f.Type)
+			default:
+				k := g.u.FieldComp(t, i)
+				nv := g.fresh("hv", f.Sort)
+				g.assert(g.u.rangeFact(nv, f.Type, g.top(st)))
+				st = g.update(st, k, fmt.Sprintf("(store %s %s %s)", g.read(st, k), r, nv))
 			}
 		}
+		return st
+	case *types.Array:
+		k := g.u.ElemComp(x.Elem())
+		row := g.fresh("hv.row", "(Array Int "+g.u.SortOf(x.Elem())+")")
+		if f := g.u.rangeFact("(select "+row+" i!h)", x.Elem(), g.top(st)); f != "" {
+			g.assert(fmt.Sprintf("(forall ((i!h Int)) (! %s :pattern ((select %s i!h))))", f, row))
+		}
+		return g.update(st, k, fmt.Sprintf("(store %s %s %s)", g.read(st, k), r, row))
 	}
-	return mods, false
+	k := g.u.CellComp(t)
+	nv := g.fresh("hv", g.u.SortOf(t))
+	g.assert(g.u.rangeFact(nv, t, g.top(st)))
+	return g.update(st, k, fmt.Sprintf("(store %s %s %s)", g.read(st, k), r, nv))
 }
 
 func (g *Gen) heapRefKey(env *Env, x *spec.HeapRef) string {
@@ -493,12 +549,18 @@ func (g *Gen) heapRefKey(env *Env, x *spec.HeapRef) string {
 func (g *Gen) unknownCall(v ssa.Value, name string, sig *types.Signature, args []ssa.Value, st *State, fn *ssa.Function) *State {
 	post := st
 	if fn != nil && len(fn.Blocks) > 0 {
-		m, all := g.prog.ModSet(g.u, fn)
-		if all {
+		e := g.prog.summary(g.u, fn)
+		m := copySet(e.comps)
+		if e.all {
 			post = g.havocAll(st, "u")
 		} else {
 			m[TopKey] = true
 			post = g.havocSet(st, m, "u")
+			for i := range e.params {
+				if i < len(args) {
+					post = g.havocObject(post, args[i])
+				}
+			}
 		}
 		g.uncontracted[displayName(fn)] = true
 	} else {
